@@ -421,5 +421,32 @@ impl KeyValueResult {
     }
 }
 
+/// Verification hooks (feature `crux_verif`, off by default): the private `unwrap_*` helpers
+/// behind public names, so out-of-tree harnesses can call the real mapping code.
+#[cfg(feature = "crux_verif")]
+pub mod verif_hooks {
+    use super::{KeyValueError, KeyValueResult};
+
+    pub fn unwrap_get(result: KeyValueResult) -> Result<Option<Vec<u8>>, KeyValueError> {
+        result.unwrap_get()
+    }
+
+    pub fn unwrap_set(result: KeyValueResult) -> Result<Option<Vec<u8>>, KeyValueError> {
+        result.unwrap_set()
+    }
+
+    pub fn unwrap_delete(result: KeyValueResult) -> Result<Option<Vec<u8>>, KeyValueError> {
+        result.unwrap_delete()
+    }
+
+    pub fn unwrap_exists(result: KeyValueResult) -> Result<bool, KeyValueError> {
+        result.unwrap_exists()
+    }
+
+    pub fn unwrap_list_keys(result: KeyValueResult) -> Result<(Vec<String>, u64), KeyValueError> {
+        result.unwrap_list_keys()
+    }
+}
+
 #[cfg(test)]
 mod tests;
